@@ -61,6 +61,8 @@ type Oblig struct {
 	TimeMS  int64
 	Model   string
 	noSplit bool
+	lite bool
+	NoSolve string
 	quickOnly bool
 	FailGoal string
 	Relaxed string // solver output of the relaxed query (candidate model)
@@ -173,6 +175,7 @@ type FnRun struct {
 	errs     []string
 	inputs   map[string]string
 	maxPaths int
+	zeroRefs []string
 	litAxioms map[string][]string
 	noBind   int
 	Props    []string
@@ -247,7 +250,7 @@ func (r *FnRun) freshVal(st *State, t types.Type, hint string) Val {
 		o := r.fresh(hint+".o", "Int")
 		l := r.fresh(hint+".l", "Int")
 		c := r.fresh(hint+".c", "Int")
-		st.assume(sAnd(sx("<=", "0", o), sx("<=", "0", l), sx("<=", l, c), sx("<", sx("rootid", b), st.alloc)))
+		st.assume(sAnd(sx("<=", "0", o), sx("<=", "0", l), sx("<=", l, c), sx("<=", c, "9223372036854775807"), sx("<", sx("rootid", b), st.alloc)))
 		st.assume(sImp(sEq(b, "null"), sEq(c, "0")))
 		st.assume(sNot(sx("(_ is ibox)", b)))
 		st.assume(sOr(sEq(b, "null"), sx("<=", sx("+", o, c), sx("alen", b))))
@@ -426,7 +429,7 @@ func (r *FnRun) load1(st *State, p string, t types.Type, hint string) Val {
 		o := r.bind(st, sx("select", st.heap["I"], sx("fld", p, "1")), hint+".o", "Int")
 		l := r.bind(st, sx("select", st.heap["I"], sx("fld", p, "2")), hint+".l", "Int")
 		c := r.bind(st, sx("select", st.heap["I"], sx("fld", p, "3")), hint+".c", "Int")
-		st.assume(sAnd(sx("<=", "0", o), sx("<=", "0", l), sx("<=", l, c), sx("<", sx("rootid", b), st.alloc)))
+		st.assume(sAnd(sx("<=", "0", o), sx("<=", "0", l), sx("<=", l, c), sx("<=", c, "9223372036854775807"), sx("<", sx("rootid", b), st.alloc)))
 		st.assume(sImp(sEq(b, "null"), sEq(c, "0")))
 		st.assume(sOr(sEq(b, "null"), sx("<=", sx("+", o, c), sx("alen", b))))
 		st.assume(sOr(sEq(b, "null"), sAnd(sEq(sx("elty", b), fmt.Sprint(r.W.eltyFor(t.Underlying().(*types.Slice).Elem()))), sNot(sEq(sx("rootref", b), ghostRoot)))))
@@ -688,6 +691,10 @@ func (r *FnRun) globalRef(g *ssa.Global) string {
 	id := -(len(r.inputs) + 10)
 	t := sx("obj", sInt(int64(id)))
 	r.inputs[key] = t
+	if r.W.zeroGlobals[g] {
+		r.zeroRefs = append(r.zeroRefs, t)
+		r.Assump["package-level array "+g.String()+" is never written (checked: only used as the source of copy) and keeps its zero value"] = true
+	}
 	return t
 }
 
